@@ -33,7 +33,35 @@ IMG_DATA = {
     "I8": [[[0.2, 0.7], [0.4, 1.9]], [], [[0.0, 1.0]]],
     # several empty diagrams, at the front and between non-empty ones
     "I9": [[], [], [[0.2, 0.7]], [], [[0.0, 1.0], [0.5, 0.8]]],
+    # collections that are not lists: a 3-D array stacking equal-sized diagrams, a tuple, and a sequence that
+    # builds its items on demand (each item exists only while it is being used)
+    "I10": {"container": "stack", "diagrams": [[[0.1, 0.4], [0.2, 0.9]], [[0.3, 1.0], [0.2, 0.5]], [[0.0, 2.0], [1.0, 1.5]], [[0.25, 0.5], [0.6, 0.7]], [[0.4, 1.1], [0.0, 0.3]]]},
+    "I11": {"container": "lazy", "diagrams": [[[0.1, 0.4], [0.2, 0.9]], [[0.3, 1.0]], [[0.0, 2.0], [1.0, 1.5], [0.5, 0.6]], [[0.25, 0.5]], [[0.4, 1.1], [0.0, 0.3]]]},
+    "I12": {"container": "tuple", "diagrams": [[[0.1, 0.4]], [[0.3, 1.0], [0.2, 0.5]], [[0.0, 2.0]]]},
 }
+
+
+class LazyDiagrams:
+    """A read-only sequence whose items are created when asked for (and die when the caller drops them)."""
+
+    def __init__(self, rows):
+        self._rows = rows
+
+    def __len__(self):
+        return len(self._rows)
+
+    def __getitem__(self, i):
+        if isinstance(i, slice):
+            return [np.array(r, dtype=float) for r in self._rows[i]]
+        return np.array(self._rows[i], dtype=float)
+
+    def __iter__(self):
+        for r in self._rows:
+            yield np.array(r, dtype=float)
+
+
+def is_collection(d):
+    return isinstance(d, (list, tuple, LazyDiagrams)) or (isinstance(d, np.ndarray) and d.ndim == 3)
 THOROUGH_ONLY = {"I5", "I6", "L4", "L5"}
 TIER = "quick"
 IMG_DATA.update({
@@ -100,6 +128,12 @@ def make(init):
 def data_for(init, key):
     if init["cls"] == "imager":
         spec = IMG_DATA[key]
+        if isinstance(spec, dict) and "container" in spec:
+            if spec["container"] == "stack":
+                return np.array(spec["diagrams"], dtype=float)
+            if spec["container"] == "lazy":
+                return LazyDiagrams(spec["diagrams"])
+            return tuple(np.array(x, dtype=float) for x in spec["diagrams"])
         if isinstance(spec, dict):
             base = [np.array(x, dtype=float) for x in spec["diagrams"]]
             return [base[i] for i in spec["pattern"]]
@@ -295,7 +329,7 @@ def run_history(case, ctx):
                 ctx.valid()
                 if not same_out(out, outp):
                     bad("transform-n_jobs", "transform(D, n_jobs=1) differs from transform(D)", out_digest(outp), out_digest(out))
-                if isinstance(d, list):
+                if is_collection(d):
                     ctx.valid()
                     if not isinstance(out, list) or len(out) != len(d):
                         bad("collection-shape", "transform of a collection does not return one image per diagram", out_digest(out))
